@@ -244,11 +244,19 @@ def getitem(ctx, obj, idx):
             i = zint(idx)
             if not ctx.branch(z3.And(i >= -n, i < n)):
                 raise PyRaise('IndexError')
-            r = None
-            for k in range(n - 1, -1, -1):
-                c = z3.Or(i == k, i == k - n)
-                r = obj[k] if r is None else merge(c, obj[k], r)
-            return r
+            try:
+                r = None
+                for k in range(n - 1, -1, -1):
+                    c = z3.Or(i == k, i == k - n)
+                    r = obj[k] if r is None else merge(c, obj[k], r)
+                return r
+            except NeedFork:
+                if ctx.pure:
+                    raise
+                for k in range(n):
+                    if ctx.branch(z3.Or(i == k, i == k - n)):
+                        return obj[k]
+                raise PyRaise('IndexError')
         try:
             return obj[idx]
         except _PYEXC as e:
